@@ -452,10 +452,10 @@ def run_sanitizer_stage(st, prop, tier, seed, root, harness, repo, nproc, work):
         for i in range(nproc):
             out = os.path.join(work, "tsan_%02d.json" % i)
             cmds.append([b, "run", "--prop", prop, "--tier", tier, "--seed", str(seed + 2000), "--shard", str(i), "--nshards", str(nproc),
-                         "--out", out, "--max-cases", "20000", "--time-limit", str(tl), "--only-mode", "F", "--no-hook"])
+                         "--out", out, "--max-cases", "20000", "--time-limit", str(tl), "--only-mode", "F", "--no-hook", "--cap-len", "400"])
             envs.append({"TSAN_OPTIONS": "halt_on_error=1:exitcode=66:second_deadlock_stack=1"})
             outs.append(out)
-        return run_shards(cmds, envs, outs, tl + 240, "tsan")
+        return run_shards(cmds, envs, outs, tl + 480, "tsan")
     return None
 
 
